@@ -207,7 +207,9 @@ func run(c *Case) *vkit.Outcome {
 			envTimeouts.Add(1) // a notice timed out inside the inner store
 			return
 		}
-		if k, _ := curPlanned.Load().(string); k == "" {
+		// planned successes - and the "lostack" append, whose record the inner
+		// store is meant to write before the acknowledgement is dropped
+		if k, _ := curPlanned.Load().(string); k == "" || k == "lostack" {
 			envTimeouts.Add(1)
 		}
 	}
